@@ -29,7 +29,7 @@ VARIABLES cid,        \* index into Cases, fixed in Init
           insp,       \* inspector state: number of tokens fed by on_token, restored by on_rewind
           memo,       \* memo table: function from <<pos, path>> to [inprog, alt]
           kf,         \* deviation choices made so far: function site -> "on"/"off"
-          st,         \* [done, panicked, steps]
+          st,         \* [done, panicked, steps, leaked]: leaked = tracked values lost without being dropped (C19)
           obs,        \* history: probe events <<id, cur, insp, ctx>>
           result      \* the ParseResult, set by Finish
 
@@ -106,6 +106,7 @@ MV(mode, v) == IF mode = "E" THEN v ELSE VU            \* M::bind / M::map: no v
 Truncate(s, n) == IF Len(s) <= n THEN s ELSE SubSeq(s, 1, n)
 
 Tick == st' = [st EXCEPT !.steps = @ + 1]
+TickLeak(n) == st' = [st EXCEPT !.steps = @ + 1, !.leaked = @ + n]
 
 (* Call: replace the top frame by f2 and push a frame for child node cg.   *)
 (* The child's entry checkpoint is the state this action leaves behind.    *)
@@ -272,7 +273,10 @@ ASeqStep ==
   /\ LET f == Top
          i == f.pc
          acc2 == Append(f.acc, ret.val)
-     IN IF ~ret.ok THEN Keep(ErrRet)
+     IN IF ~ret.ok
+        THEN \* Group<[P; N]>::go keeps the outputs in a [MaybeUninit; N]: when the k-th parser fails it drops
+             \* the k-1 initialised slots by hand before returning (st.leaked counts what such sites lose)
+             Keep(ErrRet)
         ELSE IF i = Len(Kids(f.g)) THEN Keep(OkRet(MV(f.mode, Combine(f.g, acc2))))
         ELSE Call([f EXCEPT !.pc = i + 1, !.acc = acc2], i + 1, Kids(f.g)[i + 1][1], KidMode(f, i + 1),
                   cur, sec, insp, alt)
@@ -608,14 +612,19 @@ ACollectRet ==
                       1, f.g[2], IterMode(f), ret.n, cur, sec, insp, alt)
         ELSE Keep(OkRet(MV(f.mode, IF Op(f.g) = "run" THEN VU ELSE Sink(f.g[3], f.acc))))
 
-(* collect_exactly::<[T; N]>: exactly N `next` calls; a None before that   *)
-(* fails WITHOUT adding an alt; after N items the iterator is not asked    *)
-(* again.                                                                  *)
+(* collect_exactly::<[T; N]>: exactly N `next` calls; after N items the iterator is not asked   *)
+(* again.  A None before that is a failure: the iterator may have stopped without any parser    *)
+(* failing (an upper bound below N), so CollectExactly::go records an alt of its own there      *)
+(* (no expectations, the next token as `found`) -- peeking one token and rewinding -- and drops *)
+(* the initialised prefix of the array (drop_before(idx)): nothing leaks.                        *)
 AExactRet ==
   /\ Resuming({"exact"}, 1)
   /\ LET f == Top
          acc2 == Append(f.acc, ret.val)
-     IN IF ~ret.ok \/ ~ret.some THEN Keep(ErrRet)
+         t == TokAt(cur)
+         sp == SpanOf(cur, IF t = "" THEN cur ELSE Nxt(cur))
+     IN IF ~ret.ok THEN Keep(ErrRet)
+        ELSE IF ~ret.some THEN Return(ErrRet, cur, sec, insp, AddAlt(Ety, alt, cur, {}, t, sp[1], sp[2]))
         ELSE IF Len(acc2) = f.g[3] THEN Keep(OkRet(MV(f.mode, VA(acc2))))
         ELSE CallIter([f EXCEPT !.acc = acc2], 1, f.g[2], f.mode, ret.n, cur, sec, insp, alt)
 
@@ -683,7 +692,7 @@ AFoldrBRet ==
 
 (* a "can't fail" unwrap hit: the real code panics; the parse ends here *)
 Panic ==
-  /\ result' = [ok |-> FALSE, out |-> VU, errs |-> <<>>, panic |-> TRUE, insp |-> insp]
+  /\ result' = [ok |-> FALSE, out |-> VU, errs |-> <<>>, panic |-> TRUE, insp |-> insp, leaked |-> st.leaked]
   /\ st' = [st EXCEPT !.done = TRUE, !.panicked = TRUE]
   /\ UNCHANGED <<cid, stack, ret, cur, alt, sec, insp, memo, kf, obs>>
 
@@ -1088,12 +1097,12 @@ Finish ==
      IN result' = [ok |-> ret.ok,
                    out |-> IF ret.ok THEN ret.val ELSE VU,
                    errs |-> IF ret.ok THEN errs ELSE Append(errs, primary),
-                   panic |-> FALSE,
+                   panic |-> FALSE, leaked |-> st.leaked,
                    insp |-> insp]
   /\ st' = [st EXCEPT !.done = TRUE]
   /\ UNCHANGED <<cid, stack, ret, cur, alt, sec, insp, memo, kf, obs>>
 
-NoResult == [ok |-> FALSE, out |-> VU, errs |-> <<>>, panic |-> FALSE, insp |-> 0]
+NoResult == [ok |-> FALSE, out |-> VU, errs |-> <<>>, panic |-> FALSE, insp |-> 0, leaked |-> 0]
 
 Init ==
   /\ cid \in 1..Len(Cases)
@@ -1104,7 +1113,7 @@ Init ==
   /\ memo = <<>>
   /\ kf \in (IF "mapped_span" \in KFSites /\ Cases[cid].kind \in GappedKinds
              THEN {<<>>, "mapped_span" :> "on"} ELSE {<<>>})
-  /\ st = [done |-> FALSE, panicked |-> FALSE, steps |-> 0]
+  /\ st = [done |-> FALSE, panicked |-> FALSE, steps |-> 0, leaked |-> 0]
   /\ obs = <<>>
   /\ result = NoResult
 
